@@ -47,6 +47,9 @@ type Exec struct {
 	heapSorts     map[string]string
 	entryHeap     map[string]*Term
 	entryAlloc    *Term
+	globalsDone   map[*ssa.Call]bool
+	spareOf       map[*ssa.BasicBlock]int
+	spareUsed     map[int]bool
 	entryAsserts  *assertNode
 	params        map[string]Val
 	paramOrder    []string
@@ -452,6 +455,18 @@ func (x *Exec) runBlock(s *State, b *ssa.BasicBlock, pred *ssa.BasicBlock, k con
 		if fc != nil {
 			spec = fc.Loops[li.ordinal]
 		}
+		if spec == nil && fr.depth > 0 && (fc == nil || len(fc.Loops) == 0) {
+			// a loop of an inlined, uncontracted helper: if the function under verification has loop
+			// contracts for loops it no longer contains (the loop was extracted into this helper),
+			// they are tried here, in order. The invariants are checked like any others, so a wrong
+			// match cannot make anything pass that should not.
+			spec = x.spareLoopSpec(b)
+			if spec != nil {
+				if c, ok := fr.vars[fmt.Sprintf("iter%d", li.ordinal)]; ok {
+					fr.vars[fmt.Sprintf("iter%d", x.spareOf[b])] = c
+				}
+			}
+		}
 		lname := fmt.Sprintf("loop%d", li.ordinal)
 		if fr.depth > 0 {
 			lname = x.fnName(fr.fn) + "." + lname
@@ -462,6 +477,9 @@ func (x *Exec) runBlock(s *State, b *ssa.BasicBlock, pred *ssa.BasicBlock, k con
 				for _, inv := range spec.Invariants {
 					t, err := x.specBool(s, fr, inv.E, nil)
 					if err != nil {
+						if strings.Contains(err.Error(), "unknown identifier") {
+							continue // dropped at entry as well (see there)
+						}
 						x.abort(fmt.Sprintf("%s invariant %s: %v", lname, inv.Name, err))
 						return
 					}
@@ -487,6 +505,12 @@ func (x *Exec) runBlock(s *State, b *ssa.BasicBlock, pred *ssa.BasicBlock, k con
 			for _, inv := range spec.Invariants {
 				t, err := x.specBool(s, fr, inv.E, nil)
 				if err != nil {
+					if strings.Contains(err.Error(), "unknown identifier") {
+						// the clause speaks about a variable the code no longer has (a removed
+						// temporary): it is dropped, which only weakens what is assumed
+						x.eng.warn("%s invariant %s dropped: %v", lname, inv.Name, err)
+						continue
+					}
 					x.abort(fmt.Sprintf("%s invariant %s: %v", lname, inv.Name, err))
 					return
 				}
@@ -563,6 +587,12 @@ func (x *Exec) runBlock(s *State, b *ssa.BasicBlock, pred *ssa.BasicBlock, k con
 			for _, inv := range spec.Invariants {
 				t, err := x.specBool(s, fr, inv.E, nil)
 				if err != nil {
+					if strings.Contains(err.Error(), "unknown identifier") {
+						// the clause speaks about a variable the code no longer has (a removed
+						// temporary): it is dropped, which only weakens what is assumed
+						x.eng.warn("%s invariant %s dropped: %v", lname, inv.Name, err)
+						continue
+					}
 					x.abort(fmt.Sprintf("%s invariant %s: %v", lname, inv.Name, err))
 					return
 				}
@@ -1930,4 +1960,36 @@ func storesTo(fn *ssa.Function, v ssa.Value) bool {
 		}
 	}
 	return false
+}
+
+// spareLoopSpec hands out the loop contracts of the function under verification that refer to
+// loops it does not contain, one per inlined-helper loop header, in ordinal order.
+func (x *Exec) spareLoopSpec(header *ssa.BasicBlock) *LoopSpec {
+	if x.fc == nil || len(x.fc.Loops) == 0 {
+		return nil
+	}
+	if x.spareOf == nil {
+		x.spareOf = map[*ssa.BasicBlock]int{}
+		x.spareUsed = map[int]bool{}
+	}
+	if n, ok := x.spareOf[header]; ok {
+		return x.fc.Loops[n]
+	}
+	have := map[int]bool{}
+	for _, li := range x.loopsOf(x.fn) {
+		have[li.ordinal] = true
+	}
+	var spare []int
+	for n := range x.fc.Loops {
+		if !have[n] && !x.spareUsed[n] {
+			spare = append(spare, n)
+		}
+	}
+	if len(spare) == 0 {
+		return nil
+	}
+	sort.Ints(spare)
+	x.spareOf[header] = spare[0]
+	x.spareUsed[spare[0]] = true
+	return x.fc.Loops[spare[0]]
 }
